@@ -49,7 +49,7 @@
       prepared, the old chain nodes stay in the table as ordinary unreferenced
       nodes), [k] new levels at the bottom, [post_reorder_mut] builds the chain
       for the new number of levels: [zadd_vars] of DD/ZbddVars.v.
-      The apply cache: see [cav] below;
+      The apply cache is NOT cleared (see below);
     - [ZHSetVarOrder order]: [oxidd_reorder::set_var_order]
       (oxidd-reorder/src/set_var_order/mod.rs, generic in the manager): the
       same early returns / panics as in Mgr/History.v (at most one variable named
@@ -59,21 +59,24 @@
       chain dropped ([zchain_drop]), the adjacent [level_swap_zc]s of the bubble
       sort, chain rebuilt ([zchain_rebuild]).
 
-    The apply cache across [add_vars].  All entries of a ZBDD apply cache are
-    statements about FAMILIES of level sets and do not depend on the number of
-    levels - except [ZBDDOp::Restrict] (key [f; vars]): its result depends on
-    the number of levels through the Base terminal of the cube (= "all remaining
-    variables negative") and through [tautology(level)] in [restrict_base].
-    [Manager::add_vars] only raises [pre_reorder]/[post_reorder]; the
-    direct-mapped apply cache (oxidd-cache/src/direct.rs) implements only
-    [pre_gc]/[post_gc], i.e. the code as it stands keeps EVERY entry across
-    [add_vars], and a later [restrict] with the same operand edges is served the
-    result for the old number of levels (a defect: witness in notes/HISTz.md).
-    The model makes the cache's reaction a parameter [cav : C -> C] of the
-    configuration; the theorems assume that [cav c] serves only what [c] served
-    and no Restrict entry ([cav_ok], Mgr/HistoryZProofs.v) - satisfied by a full
-    flush ([fun _ => cempty]) and by a Restrict-only invalidation, NOT by the
-    identity.
+    The apply cache across [add_vars].  [Manager::add_vars] only raises
+    [pre_reorder]/[post_reorder]; the direct-mapped apply cache
+    (oxidd-cache/src/direct.rs) implements only [pre_gc]/[post_gc]: EVERY entry
+    survives [add_vars] ([hz_c] is unchanged).  All entries of a ZBDD apply cache
+    are statements about FAMILIES of level sets and do not depend on the number
+    of levels - except [ZBDDOp::Restrict]: its result depends on the number of
+    levels through the Base terminal of the cube (= "all remaining variables
+    negative") and through [tautology(level)] in [restrict_base].  Therefore
+    [restrict] (oxidd-rules-zbdd/src/apply_rec.rs, since the fix f8637cd) keys
+    its entries by the operand edges AND [manager.num_levels()]
+    ([get_extended] / [add_extended]).  The per-operation model DD/ZbddBool.v
+    looks Restrict entries up under [[f; vars]], [[]]; here every algorithm runs
+    on the cache as seen through [zcgetN n] / [zcaddN n], [n] = the current
+    number of levels: they append [n] to the numeric operands of the Restrict
+    code ([zkeyN]) and are the identity on every other code.  (Without the
+    level in the key a [restrict] repeated after [add_vars] is served the
+    result for the old number of levels: the defect fixed by f8637cd, witness
+    in notes/HISTz.md and Mgr/HistoryZExamples.v.)
 
     [hstep_z] returns [None] when the client's request is malformed (empty
     slot, unknown variable) or when one of the code's [unwrap]s would panic;
@@ -133,13 +136,21 @@ Definition with_chain (s : snap) : snap :=
 
 Section MachineZ.
 (** the configuration: the (unobservable) edge order [f > g] of union / intsec /
-    symm_diff, the apply cache, its cleared state, its reaction to [add_vars] *)
+    symm_diff, the apply cache, its cleared state *)
 Variable gt : ref -> ref -> bool.
 Variable C : Type.
 Variable cget : C -> N -> list ref -> list nat -> option ref.
 Variable cadd : C -> N -> list ref -> list nat -> ref -> C.
 Variable cempty : C.
-Variable cav : C -> C.
+
+(** the cache as the algorithms of a manager with [n] levels access it:
+    [ZBDDOp::Restrict] entries carry [n] as (last) numeric operand *)
+Definition zkeyN (n : nat) (code : N) (nums : list nat) : list nat :=
+  if N.eqb code zcode_restrict then nums ++ [n] else nums.
+Definition zcgetN (n : nat) : C -> N -> list ref -> list nat -> option ref :=
+  fun c code args nums => cget c code args (zkeyN n code nums).
+Definition zcaddN (n : nat) : C -> N -> list ref -> list nat -> ref -> C :=
+  fun c code args nums r => cadd c code args (zkeyN n code nums) r.
 
 Record hstate_z := mkHZ { hz_s : snap; hz_c : C }.
 
@@ -164,6 +175,8 @@ Definition hstep_z (st : hstate_z) (o : zhop) : option hstate_z :=
   let s := hz_s st in
   let c := hz_c st in
   let fuel := S (nlevels s) in
+  let cget := zcgetN (nlevels s) in
+  let cadd := zcaddN (nlevels s) in
   match o with
   | ZHConst d b =>
     match zconst s b with
@@ -229,7 +242,7 @@ Definition hstep_z (st : hstate_z) (o : zhop) : option hstate_z :=
     Some (mkHZ (set_handles (gc_model (with_chain s)) (s_handles s)) cempty)
   | ZHAddVars k =>
     match zadd_vars s k with          (* [None] = [get_terminal(Base).unwrap()] panics *)
-    | Some (s', _) => Some (mkHZ s' (cav c))
+    | Some (s', _) => Some (mkHZ s' c)                 (* the apply cache is kept *)
     | None => None
     end
   | ZHSetVarOrder order =>
